@@ -21,7 +21,7 @@ from .c06 import kpoint_action
 from ..index import ClassInfo, FunctionInfo
 from ..sem import Sem
 import re
-from .common import calls, const_of, enclosing, fctx, in_body, is_name, method_calls, pfind, pmatch, stmts
+from .common import calls, const_of, kwarg, enclosing, fctx, in_body, is_name, method_calls, pfind, pmatch, stmts
 
 LEVEL = "other"
 EXPLANATION = (
@@ -64,6 +64,39 @@ def _roles(e: ast.AST) -> set:
         if _INV_TOKEN.search(tok):
             out.add("Inv")
     return out
+
+
+def _matmul_chain(e: ast.AST):
+    """([matrix factors in order], [scalar factors]) of an expression built from @ / .dot / np.dot and `* scalar`; None if other operators occur.
+    A product in parentheses multiplied by a scalar scales the whole chain; scalar factors are products of names / attributes (no matrices)."""
+    mats: List[str] = []
+    scal: List[str] = []
+
+    def is_scalar(x):
+        return not any(isinstance(n, ast.BinOp) and isinstance(n.op, ast.MatMult) for n in ast.walk(x)) and \
+            not any(isinstance(n, ast.Call) for n in ast.walk(x)) and all(isinstance(n, (ast.BinOp, ast.Mult, ast.Attribute, ast.Name, ast.Load, ast.Constant, ast.UnaryOp, ast.USub))
+                                                                           for n in ast.walk(x)) and \
+            all(n.attr.startswith("i") or n.attr in ("sign",) for n in ast.walk(x) if isinstance(n, ast.Attribute))
+
+    def go(x) -> bool:
+        if isinstance(x, ast.BinOp) and isinstance(x.op, ast.MatMult):
+            return go(x.left) and go(x.right)
+        if isinstance(x, ast.Call) and isinstance(x.func, ast.Attribute) and x.func.attr == "dot" and len(x.args) == 1:
+            return go(x.func.value) and go(x.args[0])
+        if isinstance(x, ast.Call) and call_name(x) in ("np.dot", "np.matmul") and len(x.args) == 2:
+            return go(x.args[0]) and go(x.args[1])
+        if isinstance(x, ast.BinOp) and isinstance(x.op, ast.Mult):
+            for m_, s_ in ((x.left, x.right), (x.right, x.left)):
+                if is_scalar(s_) and not is_scalar(m_):
+                    for f_ in (s_.left, s_.right) if isinstance(s_, ast.BinOp) and isinstance(s_.op, ast.Mult) else (s_,):
+                        scal.append(norm(f_))
+                    return go(m_)
+            return False
+        if isinstance(x, (ast.Name, ast.Attribute)) or (isinstance(x, ast.Call) and call_name(x) in ("np.linalg.inv", "np.transpose")):
+            mats.append(norm(x))
+            return True
+        return False
+    return (mats, scal) if go(e) else None
 
 
 def run(ctx) -> None:
@@ -111,6 +144,36 @@ def run(ctx) -> None:
             kv_ = n_.generators[0].target.id
             if pmatch(n_.elt, f"{symp}.transform_reduced_vector({kv_}, self.recip_lattice)"):
                 okk = True
+    if okres and not okk:
+        # vectorised mapping of the k-points: compare the matrix-product chain with the one of PointSymmetry.transform_reduced_vector
+        ref = idx.cls(PS, "PointSymmetry").methods.get("transform_reduced_vector")
+        ctor_ = [c_ for c_ in ast.walk(tt.node) if isinstance(c_, ast.Call) and call_name(c_).split(".")[-1] in ("TABresult", "__class__")]
+        kq = kwarg(ctor_[0], "kpoints") if ctor_ else None
+        if ref is not None and kq is not None:
+            RS_ = Sem(idx, ref)
+            rret = [s_ for s_ in stmts(ref.node) if isinstance(s_, ast.Return) and s_.value is not None]
+            ch_ref = _matmul_chain(RS_.resolve(rret[0].value, RS_.cfg.node(rret[0]))) if len(rret) == 1 else None
+            ch_new = _matmul_chain(TTS.resolve(kq, TTS.du.node_of_expr(ctor_[0])))
+            if ch_ref is not None and ch_new is not None:
+                vecp, basp = ref.params[1], ref.params[2]
+                sub = {vecp: "self.kpoints", basp: "self.recip_lattice", "self": symp}
+
+                def ren(t):
+                    import re as _re
+                    out_t = _re.sub(r"\bself\b", "\0SELF\0", t)
+                    out_t = _re.sub(rf"\b{vecp}\b", "self.kpoints", out_t)
+                    out_t = _re.sub(rf"\b{basp}\b", "self.recip_lattice", out_t)
+                    return out_t.replace("\0SELF\0", symp)
+                ref_m, ref_s = [ren(x) for x in ch_ref[0]], sorted(ren(x) for x in ch_ref[1])
+                new_m, new_s = ch_new[0], sorted(ch_new[1])
+                okk = True
+                r1.check(ref_m == new_m and ref_s == new_s, "vectorised k-point map = the matrix chain of transform_reduced_vector", tt, ctor_[0],
+                         f"the k-points are mapped with the chain {' @ '.join(new_m)} (scalars {new_s}), PointSymmetry.transform_reduced_vector uses "
+                         f"{' @ '.join(ref_m)} (scalars {ref_s}): the transformed values are stored at other k-points than the ones they belong to")
+        if not okk:
+            r1.expect(False, "", tt, tt.node, "TABresult.transform: the mapping of the k-points is neither a per-k call of transform_reduced_vector nor a "
+                      "matrix-product chain that can be compared with it")
+            okk = True
     r1.check(okres and okk,
              "TABresult: every quantity and every k-point is mapped with the same operation", tt, tt.node,
              "TABresult.transform does not map all quantities and the k-points with the same operation", stmt="TAB transform")
@@ -404,6 +467,8 @@ def run(ctx) -> None:
 from ..selftest import V  # noqa: E402
 
 SELFTEST = [
+    V("tabulated k-points mapped with R instead of R.T in a vectorised rewrite (seeded C07-m6)", TAB, '        kpoints = [sym.transform_reduced_vector(k, self.recip_lattice) for k in self.kpoints]\n', '        kpoints_cart = self.kpoints @ self.recip_lattice\n        kpoints_cart = (kpoints_cart @ sym.R) * (sym.iTR * sym.iInv)\n        kpoints = kpoints_cart @ np.linalg.inv(self.recip_lattice)\n', "fire", "R07.1"),
+    V("tabulated k-points mapped by the vectorised chain of transform_reduced_vector", TAB, '        kpoints = [sym.transform_reduced_vector(k, self.recip_lattice) for k in self.kpoints]\n', '        kpoints_cart = self.kpoints @ self.recip_lattice\n        kpoints_cart = (kpoints_cart @ sym.R.T) * (sym.iTR * sym.iInv)\n        kpoints = kpoints_cart @ np.linalg.inv(self.recip_lattice)\n', "silent", "R07.1"),
     V("seeded C07-m2: k-resolved static result gets the TR transform in the inversion slot", "wannierberri/calculators/static.py",
       "return K__Result([restot], transformTR=formula.transformTR, transformInv=formula.transformInv,",
       "return K__Result([restot], transformTR=formula.transformTR, transformInv=formula.transformTR,", "fire", "R07.5"),
